@@ -69,7 +69,6 @@ Ltac enc_solve :=
   repeat match goal with |- context [bval ?c _ _ _] => progress unfold c end;
   cbv [bval bdef sumf prodf sumpairs allf allpairs length INR];
   split; [ bdef_solve | rewrite ?powR_pos by interval; unfold Rpower; interval with (i_prec 90) ].
-Ltac chk i P := tryif (assert P by enc_solve) then idtac "@@OK" i else idtac "@@BAD" i.
 '''
 
 
@@ -84,8 +83,9 @@ def enc_goal(idx, c):
     xs = '[' + '; '.join(coq_q(Fraction(v)) for v in c['x']) + ']'
     val = Fraction(c['impl'])
     tol = Fraction(1, 10 ** 9) * max(Fraction(1), abs(val))
-    return ('Goal True. chk %d%%nat (bdef code_%s %s 0 0 /\\ Rabs (bval code_%s %s 0 0 - %s) <= %s). exact I. Qed.'
-            % (idx, c['f'], xs, c['f'], xs, coq_q(val), coq_q(tol)))
+    return ('Goal True. tryif (assert (bdef code_%s %s 0 0 /\\ Rabs (bval code_%s %s 0 0 - %s) <= %s) by enc_solve) '
+            'then idtac "@@OK %d" else idtac "@@BAD %d". exact I. Qed.'
+            % (c['f'], xs, c['f'], xs, coq_q(val), coq_q(tol), idx, idx))
 
 
 def simple_first(cases, idxs):
@@ -219,7 +219,7 @@ def run(ctx):
     for pi, (okc, outc) in results.items():
         if not okc:
             fails.append(outc[-1500:])
-        for m in re.finditer(r'^@@(OK|BAD) (\d+)%nat', outc, re.M):
+        for m in re.finditer(r'^@@(OK|BAD) (\d+)\s*$', outc, re.M):
             (okset if m.group(1) == 'OK' else badset).add(int(m.group(2)))
     missing = [i for i in enc if i not in okset and i not in badset]
     ctx.oblige('enclosure files evaluate in Coq (%d files)' % len(parts), not fails and not missing,
